@@ -321,7 +321,7 @@ Grid(bool thorough)
         case 2: GridCase<int32_t>(n, alpha, "i32", true); break;
         default: GridCase<int64_t>(n, alpha, "i64", true); break;
       }
-      if (failures > 20) goto done;
+      if (failures > 3000) goto done;
     }
   }
   if (!thorough) {
@@ -334,7 +334,7 @@ Grid(bool thorough)
           case 2: GridCase<int32_t>(n, alpha, "i32", true); break;
           default: GridCase<int64_t>(n, alpha, "i64", true); break;
         }
-        if (failures > 20) goto done;
+        if (failures > 3000) goto done;
       }
     }
     // fine skew sweep (step 0.01 over [0, 3]) at two bin counts of the "n >= 1000" clause; the thorough tier sweeps every n
@@ -347,7 +347,7 @@ Grid(bool thorough)
           case 2: GridCase<int32_t>(n, a / 100.0, "i32", true); break;
           default: GridCase<int64_t>(n, a / 100.0, "i64", true); break;
         }
-        if (failures > 20) goto done;
+        if (failures > 3000) goto done;
       }
     }
   }
